@@ -50,7 +50,7 @@ ASSUMPTIONS = [
 ]
 BOUNDS = {
     "quick": {"docs_rd": 20000, "docs_mw": 5000, "max_segments": 14, "enum_len": 5},
-    "thorough": {"docs_rd": 200000, "docs_mw": 40000, "max_segments": 24, "enum_len": 7},
+    "thorough": {"docs_rd": 500000, "docs_mw": 100000, "max_segments": 24, "enum_len": 7},
 }
 
 HTML_WS = " \t\n\f\r"
@@ -663,7 +663,7 @@ def plan(tier, seed, scale=1.0):
                 specs.append({"kind": "enum", "prefix": [a, c], "maxlen": L})
     n_rd = max(16, int(b["docs_rd"] * scale))
     n_mw = max(8, int(b["docs_mw"] * scale))
-    sh_rd, sh_mw = (24, 8) if tier == "quick" else (48, 16)
+    sh_rd, sh_mw = (24, 8) if tier == "quick" else (128, 32)
     for sh in range(sh_rd):
         specs.append({"kind": "hyp_rd", "n": n_rd // sh_rd, "seed": derive_seed(seed, "rd", sh), "max_segments": b["max_segments"]})
     for sh in range(sh_mw):
